@@ -236,6 +236,9 @@ class Exec:
         """Python == as z3 Bool (or python bool)."""
         ka, kb = a.k, b.k
         if ka == "py" or kb == "py":
+            from .builtins_model import TypeOf
+            if (ka == "py" and isinstance(a.py, TypeOf)) or (kb == "py" and isinstance(b.py, TypeOf)):
+                return self.py_is(ctx, st, a, b)  # classes compare by identity
             oka, va = const_of(a)
             okb, vb = const_of(b)
             if oka and okb:
@@ -291,6 +294,13 @@ class Exec:
                 return V.is_NONE(o.t)
             return False
         if ka == "py" or kb == "py":
+            from .builtins_model import TypeOf, type_is
+            if ka == "py" and isinstance(a.py, TypeOf) and kb == "py" and isinstance(b.py, type):
+                return type_is(self, ctx, st, a.py.v, b.py)
+            if kb == "py" and isinstance(b.py, TypeOf) and ka == "py" and isinstance(a.py, type):
+                return type_is(self, ctx, st, b.py.v, a.py)
+            if (ka == "py" and isinstance(a.py, TypeOf)) or (kb == "py" and isinstance(b.py, TypeOf)):
+                raise Unsupported("type(x) compared with something that is not a class")
             if ka == "py" and kb == "py":
                 return a.py is b.py
             oka, va = const_of(a)
